@@ -27,6 +27,8 @@ Definition blocking_modes_as_modelled : bool :=
       negb (String.eqb m "send" || String.eqb m "send-select") || (String.eqb f "PERIOGroup.stopTicker" && String.eqb ch "PERIOGroup.stopCh") end) perio_chanops
    && has2 perio_calls ("Server.AddPeriodReportTimer", "eventQueue.put") && has2 perio_calls ("Server.DelPeriodReportTimer", "eventQueue.put")
    && has2 perio_calls ("Server.Close", "eventQueue.put") && has2 perio_calls ("PERIOGroup.newTicker$1", "eventQueue.put")
+   && forallb (fun y => negb (existsb (String.eqb (fst y)) ["Server.AddPeriodReportTimer"; "Server.DelPeriodReportTimer"; "Server.Close"])
+                        || String.eqb (snd y) "eventQueue.put") perio_calls      (* posting does nothing but put: no lock of its own, no wait *)
    && forallb (fun y => negb (String.eqb (fst y) "eventQueue.put") || existsb (String.eqb (snd y)) ["?.Lock"; "?.Unlock"; "?.Signal"; "append"]) perio_calls
    && has2 perio_calls ("eventQueue.get", "?.Wait") && has2 perio_calls ("Server.Serve", "eventQueue.get")
    && has2 perio_calls ("Server.Serve", "?.NotifySessReport")
@@ -68,6 +70,18 @@ Print Assumptions C18_capacities.
 Definition loop_sends_ok : bool :=
   forallb (fun x => match x with (f, ch, m) =>
     (String.eqb m "nonblocking" || existsb (String.eqb f) ["PfcpServer.NotifyTransTimeout"; "PfcpServer.NotifySessReport"])%string%bool end) loop_sends.
+(* ... and every channel RECEIVE it can reach is a case of the loop's own select (or of the select on `done` in the
+   Notify functions), or cannot block (select with default: Sess.Pop); PfcpServer.Stop appears only because the call
+   graph resolves timer.Stop() by method name *)
+Definition loop_recvs_ok : bool :=
+  forallb (fun y => match y with (f, ch, m) =>
+    (String.eqb m "nonblocking"
+     || (String.eqb m "select" && existsb (String.eqb f) ["PfcpServer.main"; "PfcpServer.NotifyTransTimeout"; "PfcpServer.NotifySessReport"])
+     || String.eqb f "PfcpServer.Stop")%string%bool end) loop_recvs.
+Theorem C18_loop_recvs_cannot_block : loop_recvs_ok = true.
+Proof. vm_compute. reflexivity. Qed.
+Print Assumptions C18_loop_recvs_cannot_block.
+
 Theorem C18_loop_sends_cannot_block : loop_sends_ok = true.
 Proof. vm_compute. reflexivity. Qed.
 Print Assumptions C18_loop_sends_cannot_block.
